@@ -74,11 +74,16 @@ def _canon_with_refs(schema, v, depth=0):
         try:
             if v.refs is not None:
                 # Expression.refs also holds objects the expression never names (bookkeeping of the
-                # compilation it came from, order dependent); keep the ones whose short name occurs in
-                # the text as an identifier
+                # compilation it came from: pointers of other types, operators, ... - order dependent);
+                # keep the functions / types / globals whose short name occurs in the text as an identifier
                 import re
+                from edb.schema import functions as s_func
+                from edb.schema import types as s_types
+                from edb.schema import globals as s_globals
                 refs = []
                 for o in v.refs.objects(schema):
+                    if not isinstance(o, (s_func.Function, s_types.Type, s_globals.Global)):
+                        continue        # pointers / operators / casts: polluted, see above
                     try:
                         short = str(o.get_shortname(schema).name)
                     except Exception:  # noqa
@@ -234,12 +239,17 @@ def run_describe(case):
         r['sdl_err'] = errinfo(e)
     if sdl is not None:
         stmts = None
+        B = None
         try:
             B = sdl_target(sdl)
             r['sdl_target'] = cmp_to(B, S, dS, own=nown > 0)
-            stmts = populate(B)
         except Exception as e:  # noqa
             r['sdl_target'] = {'rejected': errinfo(e)}
+        if B is not None:
+            try:
+                stmts = populate(B)
+            except Exception as e:  # noqa
+                r['sdl_populate'] = {'rejected': errinfo(e)}
         if stmts is not None:
             out = []
             for i, ses in enumerate(sessions):
